@@ -31,7 +31,7 @@ REQUIRED_CLASSES = ["op:transfer", "op:distribute", "op:aspirate", "op:dispense"
 @st.composite
 def _case(draw, focus, tier="quick"):
     n = draw(st.sampled_from([1, 2, 2, 2, 3]))
-    names = ["Alpha", "Beta plate", "Gamma_3"]
+    names = ["Alpha", "Beta plate ", " Gamma_3"]
     labs = []
     for i in range(n):
         if i == 0:
